@@ -101,7 +101,7 @@ impl RHCT {
     }
 
     pub fn add_isa_string(&mut self, string: &'static str) -> IsaStringHandle {
-        let node = IsaStringNode { string };
+        let node = IsaStringNode::new(string);
         let old_offset = self.handle_offset;
 
         self.handle_offset += node.len() as u32;
@@ -163,7 +163,10 @@ impl IsaStringNode {
     const REVISION: u16 = 1;
 
     pub fn new(string: &'static str) -> Self {
-        Self { string }
+        let node = Self { string };
+        // The node length (and so the string length) is a 16-bit field.
+        assert!(node.len() <= u16::MAX as usize);
+        node
     }
 
     fn u8sum(&self) -> u8 {
